@@ -497,6 +497,114 @@ pub fn add_pair_sweeps(p: &mut Plan, q: bool, backends: &[Backend], names: &[&st
     p.bounds.push(format!("S2b pairs: every (x, y) in 256x256 at positions (i, i+1) of fields {:?}, run lengths {:?}, backends {:?}", fields.iter().map(|f| f.name).collect::<Vec<_>>(), lens, backends.iter().map(|b| b.name()).collect::<Vec<_>>()));
 }
 
+/// UTF-8 in the request target: every sequence of <= 4 bytes over a boundary alphabet of UTF-8
+/// lead / continuation / ASCII bytes, after ASCII prefixes of several lengths (so that the
+/// sequence straddles 8/16/32-byte block boundaries) and before 0..2 more target bytes.
+pub fn add_utf8_sweep(p: &mut Plan, q: bool, backends: &[Backend]) {
+    let sigma: Vec<u8> = vec![0x7e, 0x80, 0x8f, 0x90, 0x9f, 0xa0, 0xbf, 0xc0, 0xc1, 0xc2, 0xdf, 0xe0, 0xe1, 0xec, 0xed, 0xee, 0xef, 0xf0, 0xf1, 0xf3, 0xf4, 0xf5, 0xff];
+    let prefixes: Vec<usize> = if q { vec![0, 5, 13, 29, 31] } else { vec![0, 1, 5, 6, 7, 13, 14, 15, 28, 29, 30, 31, 32, 61, 62, 63] };
+    for &b in backends {
+        let mut tasks: Vec<TaskFn> = Vec::new();
+        for &k in &prefixes {
+            for first in 0..sigma.len() {
+                let sigma = sigma.clone();
+                tasks.push(Box::new(move |ck: &mut Checker| {
+                    let lane = Lane { backend: b, ..Lane::new(Entry::ReqCfg, 0, 2) };
+                    let n = sigma.len();
+                    let mut buf = Vec::new();
+                    for len in 1..=4usize {
+                        let mut idx = vec![0usize; len];
+                        idx[0] = first;
+                        'outer: loop {
+                            for tail in [&b""[..], b"a", b"\x80"] {
+                                buf.clear();
+                                buf.extend_from_slice(b"GET /");
+                                buf.extend(std::iter::repeat(b'x').take(k));
+                                for &i in &idx {
+                                    buf.push(sigma[i]);
+                                }
+                                buf.extend_from_slice(tail);
+                                buf.extend_from_slice(b" HTTP/1.1\r\n\r\n");
+                                one_shot(ck, &lane, &buf);
+                            }
+                            let mut j = len;
+                            loop {
+                                if j == 1 {
+                                    break 'outer;
+                                }
+                                j -= 1;
+                                idx[j] += 1;
+                                if idx[j] < n {
+                                    break;
+                                }
+                                idx[j] = 0;
+                            }
+                            if ck.full() {
+                                return;
+                            }
+                        }
+                    }
+                }));
+            }
+        }
+        p.phases.push(Phase { label: format!("S2c: UTF-8 boundary alphabet Σ_u({})^≤4 in the target after ASCII prefixes {:?}, 3 tails", sigma.len(), prefixes), backend: b, tasks });
+    }
+    p.bounds.push(format!("S2c UTF-8: all sequences of 1..=4 bytes over {} boundary bytes (7E 80 8F 90 9F A0 BF C0 C1 C2 DF E0 E1 EC ED EE EF F0 F1 F3 F4 F5 FF) in the request target after ASCII prefixes of lengths {:?}, followed by nothing / 'a' / 0x80", sigma.len(), prefixes));
+}
+
+/// Every prefix of long single-field messages: run length L, one offending byte of a small set at
+/// every position (block scanners and look-ahead fast paths see different amounts of data at
+/// every split point).
+pub fn add_field_prefix_sweep(p: &mut Plan, q: bool, backends: &[Backend]) {
+    let lmax = if q { 72 } else { 100 };
+    let step = if q { 3 } else { 1 };
+    for &b in backends {
+        let mut tasks: Vec<TaskFn> = Vec::new();
+        for f in FIELDS.iter() {
+            for band in 0..4usize {
+                let f = *f;
+                tasks.push(Box::new(move |ck: &mut Checker| {
+                    let lane = Lane { backend: b, ..Lane::new(f.entry, f.cfg, 2) };
+                    let bad: [u8; 6] = [f.fill, 0x7f, 0x00, b' ', b'\t', b'\r'];
+                    let mut buf = Vec::new();
+                    for l in (0..=lmax).filter(|l| l % 4 == band) {
+                        for pos in (0..l.max(1)).step_by(step) {
+                            for &v in &bad {
+                                buf.clear();
+                                buf.extend_from_slice(f.pre);
+                                buf.extend(std::iter::repeat(f.fill).take(l));
+                                buf.extend_from_slice(f.post);
+                                if pos < l {
+                                    buf[f.pre.len() + pos] = v;
+                                }
+                                // walk the prefix chain from the start of the field
+                                let mut m = Model::for_entry(lane.entry, lane.cfg, lane.cap);
+                                m.feed(&buf[..f.pre.len()]);
+                                let mut parent: Option<(Obs, usize)> = None;
+                                for k in f.pre.len()..=buf.len() {
+                                    if k > f.pre.len() {
+                                        m.step(buf[k - 1]);
+                                    }
+                                    let (o, ok) = ck.eval(&lane, &buf[..k], Some(&m), parent.as_ref().map(|(o, l)| (o, *l)));
+                                    if !ok || ck.full() {
+                                        break;
+                                    }
+                                    parent = Some((o, k));
+                                }
+                                if ck.full() {
+                                    return;
+                                }
+                            }
+                        }
+                    }
+                }));
+            }
+        }
+        p.phases.push(Phase { label: format!("S2b: every prefix of 8 single-field messages, L≤{} × position(step {}) × 6 bytes", lmax, step), backend: b, tasks });
+    }
+    p.bounds.push(format!("S2b prefixes: 8 fields × run length 0..={} × offending position (step {}) × bytes {{filler, 7F, 00, SP, HTAB, CR}} × every split point inside and after the field, backends {:?}", lmax, step, backends.iter().map(|b| b.name()).collect::<Vec<_>>()));
+}
+
 pub fn add_lane_phase(p: &mut Plan, q: bool, backends: &[Backend]) {
     let lmax = if q { 70 } else { 100 };
     for &b in backends {
